@@ -234,6 +234,10 @@ func (e *Exec) loopCut(st *State, fr *Frame, b, pred *ssa.BasicBlock) bool {
 					st.Assume(e.evalBool(ex, env))
 					e.Note("assumed for compiled programs (to be established by the compiler contracts): case %s: %s", label, ex)
 				}
+				if kw == "no-explicit-panic" {
+					// a completed iteration raised nothing: the obligation is only about failing paths
+					e.AddVC(base+"/no-explicit-panic", "post", fr.fn.String(), st, False, "the instruction fails only where its helper (or an operand assertion) fails")
+				}
 			}
 		}
 		for _, be := range spec.BodyEnsures {
@@ -694,5 +698,29 @@ func init() {
 	// isvalid(v): a reflect.Value is not the zero Value
 	specFuncs["isvalid"] = func(env *SpecEnv, a []*Value) *Value {
 		return &Value{T: tBool, L: []*Term{rvIsValid(a[0].One())}}
+	}
+}
+
+// noExplicitPanicCheck: a panic statement of the function itself, reached
+// under the header of a labelled loop (the statement's block is not part of
+// the natural loop: it never returns to the header), in a case whose contract
+// says `no-explicit-panic`.
+func (e *Exec) noExplicitPanicCheck(st *State, fr *Frame, blk *ssa.BasicBlock) {
+	if fr.ct == nil {
+		return
+	}
+	for h, snap := range fr.loopSnap {
+		if snap == nil || snap.spec == nil || snap.spec.LabelBy == "" || !h.Dominates(blk) {
+			continue
+		}
+		env := &SpecEnv{e: e, st: st, old: fr.entryState, vars: map[string]*Value{}, fn: fr.fn, bound: map[string]*Value{}}
+		env.lookup = e.nameLookup(st, fr, h)
+		label := e.pathLabel(st, fr, snap.spec, env)
+		for _, c := range fr.ct.Cases[strings.Trim(label, "[]")] {
+			kw, _, _ := splitCaseClause(c.Expr)
+			if kw == "no-explicit-panic" {
+				e.AddVC(fmt.Sprintf("%s/loop:%s%s/no-explicit-panic", shortName(fr.fn), snap.ord, label), "post", fr.fn.String(), st, True, "the instruction fails only where its helper (or an operand assertion) fails")
+			}
+		}
 	}
 }
